@@ -12,8 +12,69 @@ def hexOr (s : String) (k : Bytes → String) : String :=
 def fmtRequest (r : Request) : String :=
   s!"{r.id} {fmtIp r.dest} {r.seq} {r.ttl} {r.dataSize} {requestType r}"
 
+/-- the live waiter-table histories: the table of `TT.Icmp` plus the per-client delivery queues
+(`mpsc::channel(cap)`: a full queue drops the waiter) -/
+structure LiveSt where
+  t : Table := {}
+  now : Nat := 0
+  queues : List (List String) := [[], []]
+
+def liveDeliver (cap : Nat) (s : LiveSt) (req : Echo) (what : String) : LiveSt :=
+  match s.t.waiters.find? (fun w => echoKeyEq w.key req) with
+  | none => s
+  | some w =>
+    let q := s.queues.getD w.client []
+    let full := q.length ≥ cap
+    let (t', dst) := s.t.recv req full
+    match dst with
+    | some c => { s with t := t', queues := s.queues.set c (q ++ [what]) }
+    | none => { s with t := t' }
+
+def liveStep (timeout cap : Nat) (s : LiveSt) (op : String) : LiveSt × String :=
+  match op.splitOn "." with
+  | ["req", c, id, seq, h] =>
+    match c.toNat?, id.toNat?, seq.toNat?, parseHex h with
+    | some c, some id, some seq, some d =>
+      let e : Echo := ⟨0, id, seq, d⟩
+      let s := { s with t := s.t.send c e s.now timeout }
+      -- the kernel answers an echo to 127.0.0.1 at once
+      (liveDeliver cap s e s!"0/0/{id}/{seq}", "-")
+    | _, _, _, _ => (s, "bad-op")
+  | ["inj", id, seq, h] =>
+    match id.toNat?, seq.toNat?, parseHex h with
+    | some id, some seq, some d => (liveDeliver cap s ⟨0, id, seq, d⟩ s!"0/0/{id}/{seq}", "-")
+    | _, _, _ => (s, "bad-op")
+  | ["err", ty, id, seq, h] =>
+    match ty.toNat?, id.toNat?, seq.toNat?, parseHex h with
+    | some ty, some id, some seq, some d => (liveDeliver cap s ⟨0, id, seq, d⟩ s!"{ty}/0/{id}/{seq}", "-")
+    | _, _, _, _ => (s, "bad-op")
+  | ["adv", ms] =>
+    match ms.toNat? with
+    | some ms => let now := s.now + ms; ({ s with now := now, t := s.t.tick now }, "-")
+    | none => (s, "bad-op")
+  | ["take", c] =>
+    match c.toNat? with
+    | some c =>
+      let q := s.queues.getD c []
+      ({ s with queues := s.queues.set c [] }, if q.isEmpty then "-" else ",".intercalate q)
+    | none => (s, "bad-op")
+  | _ => (s, "bad-op")
+
+def c11Table (timeout cap : Nat) (ops : List String) : String := Id.run do
+  let mut s : LiveSt := {}
+  let mut outs : Array String := #[]
+  for op in ops do
+    let (s', o) := liveStep timeout cap s op
+    s := s'
+    outs := outs.push o
+  return " | ".intercalate outs.toList
+
 def c11 (toks : List String) : String :=
   match toks with
+  | ["table", t, cap, ops] =>
+    match (t.drop 2).toString.toNat?, (cap.drop 4).toString.toNat? with
+    | some t, some cap => c11Table t cap ((ops.drop 4).toString.splitOn ";")
+    | _, _ => "bad-op"
   | ["checksum", h] => hexOr h fun b => toString (checksum b)
   | ["serialize", v6, id, seq, h] =>
     hexOr h fun d => toHex (Echo.serialize ⟨0, id.toNat!, seq.toNat!, d⟩ (if v6 == "1" then 128 else 8))
